@@ -424,6 +424,20 @@ Fixpoint prun_obs (v : variant) (s : pst) (acts : list paction) : list Z * pst :
       end
   end.
 
+(* every action of the list is enabled when its turn comes *)
+Fixpoint penabled (v : variant) (s : pst) (acts : list paction) : bool :=
+  match acts with
+  | [] => true
+  | a :: rest => match pstep v s a with Some s' => penabled v s' rest | None => false end
+  end.
+
+(* the states a schedule goes through (after each action) *)
+Fixpoint pstates (v : variant) (s : pst) (acts : list paction) : list pst :=
+  match acts with
+  | [] => []
+  | a :: rest => let s' := pexec v s a in s' :: pstates v s' rest
+  end.
+
 End Steps.
 
 Definition pres := (option qkey * Z * option (verdict * Z))%type.
